@@ -390,6 +390,8 @@ pub fn worker_main(check: &dyn Check, tier: Tier, shard: u64, nshards: u64, skip
 	let mut ctx = Ctx::default();
 	let progress = check.track_progress();
 	let limit = check.case_timeout_ms(tier);
+	// an interleaving exploration stops by itself (reporting the bound it completed) well before the case watchdog would fire
+	crate::sched::set_budget_ms(limit * 6 / 10);
 	let mut idx = shard;
 	// resume from the checkpoint of a previous incarnation of this shard (it hung or died in a later case)
 	let ckpt = format!("{}.ckpt", resfile);
